@@ -1,4 +1,4 @@
-import PnVerif.Model.Access
+import PnVerif.Model.Scs
 import PnVerif.Spec.InBounds
 /-
   C15 correspondence driver.  One request per line on stdin, one answer per line on stdout.
@@ -10,7 +10,7 @@ import PnVerif.Spec.InBounds
 
   api: 1 var1, 2 vara, 3 vars, 4 varm.  For a record variable shape[0] is the current numrecs.
 -/
-open PnVerif.Access PnVerif.Spec.InBounds
+open PnVerif.Scs PnVerif.Spec.InBounds
 
 structure Parsed where
   c : Ctx
